@@ -292,7 +292,10 @@ impl<D: DataMut> ReaderFrom for ScalarZnx<D> {
         let new_cols: usize = reader.read_u64::<LittleEndian>()? as usize;
         let len: usize = reader.read_u64::<LittleEndian>()? as usize;
 
-        let expected_len: usize = new_n * new_cols * size_of::<i64>();
+        let expected_len: usize = new_n
+            .checked_mul(new_cols)
+            .and_then(|x| x.checked_mul(size_of::<i64>()))
+            .unwrap_or(usize::MAX);
         if expected_len != len {
             return Err(std::io::Error::new(
                 std::io::ErrorKind::InvalidData,
